@@ -285,7 +285,11 @@ struct Exec {
       permitted.push_back(sc);
       how = "SpanContext(remote,flags=01,no-trace-state)";
     } else if (pk == P_SC_INVALID) {
-      opts.parent = tr::SpanContext(tr::TraceId(), make_span_id(0xee, 1), tr::TraceFlags(0x01), true, tr::TraceState::FromHeader("inv=1"));
+      // invalid in one of the two ways (alternating with the span number): zero trace id + a span id, or a trace id + zero span id
+      opts.parent = spans.size() % 2 == 0 ? tr::SpanContext(tr::TraceId(), make_span_id(0xee, 1), tr::TraceFlags(0x01), true, tr::TraceState::FromHeader("inv=1"))
+                                          : tr::SpanContext(c05_trace_id(0xee, 2), tr::SpanId(), tr::TraceFlags(0x01), true, tr::TraceState::FromHeader("inv=2"));
+      seen_trace_ids.insert(hex(c05_trace_id(0xee, 2)));
+      seen_span_ids.insert(hex(make_span_id(0xee, 1)));
       or_active();  // not a valid parent: the next mechanism applies
       how = "SpanContext(invalid)";
     } else if (pk == P_CTX_REMOTE) {
@@ -316,7 +320,13 @@ struct Exec {
       how = vf::sfmt("SpanContext(of span#%zu)", spans.size() - 1);
     } else if (pk == P_CTX_INVALID_SPAN) {
       ctxns::Context cx;
-      opts.parent = cx.SetValue(tr::kSpanKey, nostd::shared_ptr<tr::Span>(new tr::DefaultSpan(tr::SpanContext::GetInvalid())));
+      // all-zero, or half-valid (zero trace id + a span id / a trace id + zero span id), rotating with the span number
+      tr::SpanContext inv = spans.size() % 3 == 0 ? tr::SpanContext::GetInvalid()
+                            : spans.size() % 3 == 1 ? tr::SpanContext(tr::TraceId(), make_span_id(0xee, 3), tr::TraceFlags(0x01), true, tr::TraceState::FromHeader("inv=3"))
+                                                    : tr::SpanContext(c05_trace_id(0xee, 4), tr::SpanId(), tr::TraceFlags(0x01), false, tr::TraceState::FromHeader("inv=4"));
+      seen_trace_ids.insert(hex(c05_trace_id(0xee, 4)));
+      seen_span_ids.insert(hex(make_span_id(0xee, 3)));
+      opts.parent = cx.SetValue(tr::kSpanKey, nostd::shared_ptr<tr::Span>(new tr::DefaultSpan(inv)));
       or_active();
       how = "Context(invalid span)";
     } else {
